@@ -1152,6 +1152,7 @@ inline void op(VM &vm) {
             int out = -1;
             int rc = areNeighborCells(a, b, &out);
             done(C, rc);
+            if (C.all_cells_valid && ref::res_of(a) != ref::res_of(b)) expect_code(C, rc, M(E_RES_MISMATCH), "cells of different resolutions");
             if (rc == 0) OBS(out);
             if (rc == 0 && out != 0 && out != 1) violation(sfmt("areNeighborCells(%s) out=%d", C.d().c_str(), out));
             break;
@@ -1263,7 +1264,8 @@ inline void op(VM &vm) {
             int64_t n = -1;
             int rc = gridPathCellsSize(a, b, &n);
             if (rc == 0) OBS(n);
-            { Call C2 = C; C2.fn = 57; C2.name = "gridPathCellsSize"; stats().fn_name[57] = C2.name; done(C2, rc); }
+            { Call C2 = C; C2.fn = 57; C2.name = "gridPathCellsSize"; stats().fn_name[57] = C2.name; done(C2, rc);
+              if (C.all_cells_valid && ref::res_of(a) != ref::res_of(b)) expect_code(C2, rc, M(E_RES_MISMATCH), "cells of different resolutions"); }
             if (rc != 0) break;
             if (n < 1) violation(sfmt("gridPathCellsSize(%s) = %lld", C.d().c_str(), (long long)n));
             if (n > CAP_PATH) { stats().skipped_size++; break; }
@@ -1282,6 +1284,7 @@ inline void op(VM &vm) {
             int rc = cellToLocalIj(a, b, mode, ij.p);
             done(C, rc);
             if (mode != 0) expect_code(C, rc, M(E_OPTION_INVALID), "mode != 0");
+            else if (C.all_cells_valid && ref::res_of(a) != ref::res_of(b)) expect_code(C, rc, M(E_RES_MISMATCH), "cells of different resolutions");
             break;
         }
         case 59: {
